@@ -6,7 +6,8 @@ from .. import dispatch_drv as D
 from .. import hostprog as H
 
 MC_INVS = ['Placement', 'ExactlyOnce', 'ClosedWhenInvocationEnds', 'SameThread', 'NothingLeft']
-TR_INVS = ['Placement', 'ExactlyOnce', 'ClosedWhenInvocationEnds', 'SameThread', 'NothingLeftItems', 'NotBeforeItems']
+TR_INVS = ['ExactlyOnce', 'ClosedWhenInvocationEnds', 'SameThread', 'NothingLeftItems', 'NotBeforeItems']
+# (placement on traces: enforced event by event in Trace_Dispatch!TrEvent - fired = Matching under the configuration in force)
 TRACE_CONSTS = dict(Idents=set(range(1, 13)), Fns=tlc.Lit('{}'), Lines=tlc.Lit('{}'), TpSets=tlc.Lit('{}'),
                     MaxEvents=1000000, MaxDepth=100000, MaxGen=100000, TopOnly=False)
 
@@ -89,7 +90,7 @@ def run_scenarios(c, rng, wd, n, span_bias, kind, tagbase, capture=False, curate
             traces.append(tr)
             nev = sum(1 for e in tr[1:] if e['ev'] in ('call', 'line', 'return', 'exception'))
             nf = sum(len(e.get('fired', [])) for e in tr[1:])
-            meta.append({'kind': kind, 'tps': sc.model_tps, 'plan': plan, 'events': nev, 'firings': nf,
+            meta.append({'kind': kind, 'tps': sc.all_model_tps, 'plan': plan, 'events': nev, 'firings': nf,
                          'closes': sum(len(e.get('closed', [])) for e in tr[1:]), 'problems': problems,
                          'known': known})
         finally:
